@@ -327,9 +327,12 @@ Proof.
   intros k o H. unfold member in *. destruct (lookup_last k o); [apply conv_float_cval_finite; exact H|apply finite_dzero].
 Qed.
 
+Lemma decodeTM_inv : forall o m, decodeTM o = Ok m -> uints_ok o = true /\ decodeTM_fields o = Ok m.
+Proof. intros o m H. unfold decodeTM in H. destruct (uints_ok o); [auto|discriminate]. Qed.
+
 Theorem decodeTM_wf : forall o m, decodeTM o = Ok m -> tm_wf m.
 Proof.
-  intros o m H. unfold decodeTM in H.
+  intros o m H. apply decodeTM_inv in H. destruct H as [_ H]. unfold decodeTM_fields in H.
   match type of H with (if ?hs then _ else _) = _ => destruct hs eqn:EH end; [discriminate|].
   apply orb_false_iff in EH. destruct EH as [EHard ESoft].
   repeat (apply orb_false_iff in EHard; destruct EHard as [EHard ?]).
@@ -514,7 +517,8 @@ Definition uint_stableb (n : Z) : bool := match conv_uint (jint n) with CVal z =
 Definition vmw_stableb (v : vmw) : bool := uint_stableb (v_coalesce v) && uint_stableb (v_minTileRow v) && uint_stableb (v_maxTileRow v).
 Definition tm_stableb (m : tileMatrix) : bool :=
   uint_stableb (tm_tileWidth m) && uint_stableb (tm_tileHeight m) && uint_stableb (tm_matrixWidth m) && uint_stableb (tm_matrixHeight m)
-  && match tm_vmw m with Some l => forallb vmw_stableb l | None => true end.
+  && match tm_vmw m with Some l => forallb vmw_stableb l | None => true end
+  && uints_ok (collapse (tm_fields m)).
 Definition tms_stableb (t : tms) : bool := forallb (fun e => tm_stableb (snd e)) (t_matrices t).
 
 Lemma uint_stableb_spec : forall n, uint_stableb n = true -> uint_stable n.
@@ -527,11 +531,12 @@ Lemma tms_stableb_spec : forall t, tms_stableb t = true -> tms_stable t.
 Proof.
   intros t H. unfold tms_stableb, tms_stable in *. rewrite forallb_forall in H. apply Forall_forall. intros e He.
   specialize (H e He). unfold tm_stableb in H.
+  apply andb_true_iff in H. destruct H as [H H6].
   apply andb_true_iff in H. destruct H as [H H5]. apply andb_true_iff in H. destruct H as [H H4].
   apply andb_true_iff in H. destruct H as [H H3]. apply andb_true_iff in H. destruct H as [H1 H2].
-  unfold tm_stable. repeat split; try (apply uint_stableb_spec; assumption).
+  unfold tm_stable. repeat split; try (apply uint_stableb_spec; assumption); try exact H6.
   intros l Hl. rewrite Hl in H5. rewrite forallb_forall in H5. apply Forall_forall. intros v Hv. specialize (H5 v Hv).
-  unfold vmw_stableb in H5. apply andb_true_iff in H5. destruct H5 as [H5 H8]. apply andb_true_iff in H5. destruct H5 as [H6 H7].
+  unfold vmw_stableb in H5. apply andb_true_iff in H5. destruct H5 as [H5 H8]. apply andb_true_iff in H5. destruct H5 as [H6' H7].
   unfold vmw_stable. repeat split; apply uint_stableb_spec; assumption.
 Qed.
 
